@@ -43,6 +43,12 @@ theorem wrapFieldB_sound (f : FieldD) (w : PType) (h : wrapFieldB f w = true) : 
   simp only [Bool.and_eq_true, beq_iff_eq, Bool.not_eq_true'] at h
   exact ⟨h.1.1.1.1.1, h.1.1.1.1.2, h.1.1.1.2, h.1.1.2, h.1.2, isUserKind_sound _ h.2⟩
 
+theorem wrapsFieldB_sound (f : FieldD) (w : PType) (h : wrapsFieldB f w = true) : WrapsField f w := by
+  unfold wrapsFieldB at h
+  simp only [Bool.and_eq_true, beq_iff_eq, Bool.not_eq_true', Option.isNone_iff_eq_none] at h
+  exact ⟨h.1.1.1.1.1.1.1, h.1.1.1.1.1.1.2, h.1.1.1.1.1.2, h.1.1.1.1.2, h.1.1.1.2, h.1.1.2, h.1.2,
+    isUserKind_sound _ h.2⟩
+
 theorem mapKeyTypeB_eq (t : PType) : mapKeyTypeB t = isMapKeyType t := rfl
 
 theorem mapFieldSB_sound (f : FieldD) (h : mapFieldSB f = true) : MapFieldS f := by
@@ -323,7 +329,7 @@ theorem slotOkB_sound (S : Schema) (f : FieldD) : ∀ (v : Val), slotOkB S f v =
   | .list xs, h => by
     rw [slotOkB] at h
     simp only [Bool.or_eq_true] at h
-    rcases h with ((h | h) | h) | h
+    rcases h with (((h | h) | h) | h) | h
     · simp only [Bool.and_eq_true] at h
       exact SlotOk.flat f (.list xs) (flatFieldB_sound f h.1.1) (by simp only [flatSlotOk, h.1.2, h.2]; rfl)
     · cases hk : f.kind with
@@ -338,6 +344,12 @@ theorem slotOkB_sound (S : Schema) (f : FieldD) : ∀ (v : Val), slotOkB S f v =
       exact SlotOk.tss f xs (timesFieldB_sound f false h.1) (all_timeValOk false xs h.2)
     · simp only [Bool.and_eq_true] at h
       exact SlotOk.durs f xs (timesFieldB_sound f true h.1) (all_timeValOk true xs h.2)
+    · cases hw : f.wraps with
+      | none => rw [hw] at h; exact absurd h (by simp)
+      | some w =>
+        rw [hw] at h
+        simp only [Bool.and_eq_true, List.all_eq_true] at h
+        exact SlotOk.wraps f w xs (wrapsFieldB_sound f w h.1) h.2
   | .ts us, h => by
     rw [slotOkB] at h
     simp only [Bool.and_eq_true] at h
